@@ -43,9 +43,15 @@ def _outcome(fn, want_out):
 
 
 def _mk_preserve(v):
-    """JSON value -> caller object.  None -> None, str -> str, list -> list."""
+    """JSON value -> caller object.  None -> None, str -> str, list -> list, {'tuple': [...]} -> tuple,
+    {'set': [...]} -> set (iteration order then depends on the hash seed, membership does not)."""
     if v is None or isinstance(v, str):
         return v
+    if isinstance(v, dict):
+        if 'tuple' in v:
+            return tuple(v['tuple'])
+        if 'set' in v:
+            return set(v['set'])
     return list(v)
 
 
@@ -153,6 +159,10 @@ def run_ref_job(spec):
 def _snap_list(obj):
     if obj is None or isinstance(obj, str):
         return obj
+    if isinstance(obj, tuple):
+        return tuple(obj)
+    if isinstance(obj, (set, frozenset)):
+        return set(obj)
     return list(obj)
 
 
@@ -224,7 +234,7 @@ def run_api_job(spec):
                 continue
             if type(obj) is not type(list_snap[k]) or obj != list_snap[k]:
                 flagged.add(('l', k))
-                i2.append({'obj': 'list%d' % k, 'after_call': after_call, 'before': list_snap[k], 'after': _snap_list(obj) if isinstance(obj, (list, str, type(None))) else repr(obj)})
+                i2.append({'obj': 'list%d' % k, 'after_call': after_call, 'before': repr(list_snap[k]), 'after': repr(obj)})
                 events.append('i2 list%d after %d' % (k, after_call))
         for k, obj in enumerate(opts):
             if inflight_o[k] or ('o', k) in flagged:
